@@ -16,6 +16,7 @@ ruamel.yaml / PyYAML / fastjsonschema and are decided only by the exhaustive enu
 import SpsdkVerif.Model.ConfigArea
 import SpsdkVerif.Proofs.ConfigArea
 import SpsdkVerif.Proofs.ConfigAreaCfg
+import SpsdkVerif.Proofs.ConfigAreaGrp
 import SpsdkVerif.Proofs.RegistersCfg
 import SpsdkVerif.Proofs.RegistersGen
 import SpsdkVerif.Properties.C11
@@ -794,6 +795,234 @@ theorem gen_config_roundtrip (l : Layout) (d : LayoutD) (hld : (l, d) ∈ layout
   exact area_config_roundtrip l d vals ha hlen wf hn.2 hfn hs (stateOK_init_of_resetsB l d hr) hrest
 
 
+/-! ## configuration round trip with grouped registers (byte-reversed, alternative widths) and with the state hypothesis
+    reduced to the bits no bit-field covers (Phase 3; helper lemmas in Proofs/ConfigAreaGrp.lean) -/
+
+/-- one register of a well-formed layout with its details, in two states, satisfies the C11 round-trip conditions -/
+theorem regOK_G (r : RegL) (rd : RegD) (v v0 : Nat) (wf : RegWF r) (hv : v < 2 ^ r.width) (hv0 : v0 < 2 ^ r.width)
+    (gf : GroupFacts r rd) (hz : rd.subW ≠ 0 → rd.alts ≠ [] → v0 = 0) (hst : rd.subW ≠ 0 → AltStable r rd v) :
+    C11.RegOK (toRegMeta rd) (toRegG r rd v) (toRegG r rd v0) := by
+  by_cases h0 : rd.subW = 0
+  · rw [toRegG_plain r rd v h0, toRegG_plain r rd v0 h0]
+    exact ⟨⟨rfl, rfl, rfl, rfl, rfl, rfl, rfl⟩, .plain (toReg_wf r rd v wf hv), .plain (toReg_wf r rd v0 wf hv0),
+      fun hne => absurd rfl hne⟩
+  · rw [toRegG_group r rd v h0 hv, toRegG_group r rd v0 h0 hv0]
+    have hw := gf.width h0
+    have g1 := groupWF_G r rd v wf.bytes h0 hw
+    have g0 := groupWF_G r rd v0 wf.bytes h0 hw
+    have aok : ∀ x, C11.AltOK (toRegMeta rd).alts { groupBase r rd with subs := Regs.distribute (groupBase r rd) x } := fun x =>
+      ⟨gf.alts h0, gf.order h0⟩
+    refine ⟨⟨rfl, rfl, rfl, rfl, rfl, by simp only [Regs.distribute_length], rfl⟩, .group g1 rfl (aok v), .group g0 rfl (aok v0), ?_⟩
+    intro _
+    refine ⟨?_, ?_⟩
+    · intro i hi
+      by_cases hal : rd.alts = []
+      · simp only [toRegMeta, hal, Regs.altWidth_nil] at hi
+        have hlen : (Regs.distribute (groupBase r rd) v0).length = rd.nsubs := by
+          simp [Regs.distribute_length, groupBase]
+        have : rd.nsubs ≤ i := by
+          have e : r.width / rd.subW = rd.nsubs := by rw [hw]; exact Nat.mul_div_cancel_left _ (by omega)
+          simp only [groupBase] at hi
+          rw [e] at hi; exact hi
+        simp only []
+        rw [List.getD_eq_getElem?_getD, List.getElem?_eq_none (by omega)]; rfl
+      · have := hz h0 hal
+        subst this
+        exact distribute_zero r rd i
+    · intro hr a ha hlt
+      rw [assemble_G r rd v h0 hw hv] at hlt ⊢
+      exact hst h0 hr a ha hlt
+
+
+/-- the raw value a register holds after the round trip -/
+theorem value_G (r : RegL) (rd : RegD) (v v0 : Nat) (r' : Regs.Reg) (hv : v < 2 ^ r.width) (hv0 : v0 < 2 ^ r.width)
+    (gf : GroupFacts r rd) (hrt : C11.RegRT (toRegMeta rd) (toRegG r rd v) (toRegG r rd v0) r')
+    (hrest : rd.subW = 0 → r.fields ≠ [] → ∀ k, ¬ Regs.Carried (toRegMeta rd) (toReg r rd v) k → v0.testBit k = v.testBit k) :
+    (if r'.isGroup then Regs.assemble r' else r'.value) = v := by
+  by_cases h0 : rd.subW = 0
+  · rw [toRegG_plain r rd v h0, toRegG_plain r rd v0 h0] at hrt
+    cases hrt with
+    | whole _ _ => simp [Regs.Reg.isGroup, toReg]
+    | group hne => exact absurd rfl hne
+    | fields x hne _ hx hbits =>
+      have hfne : r.fields ≠ [] := by
+        intro he; apply hne; simp [toReg, he]
+      have : x = v := by
+        apply Nat.eq_of_testBit_eq; intro k
+        by_cases hc : Regs.Carried (toRegMeta rd) (toReg r rd v) k
+        · exact (hbits k).1 hc
+        · rw [(hbits k).2 hc]; exact hrest h0 hfne k hc
+      simp [Regs.Reg.isGroup, toReg, this]
+  · rw [toRegG_group r rd v h0 hv, toRegG_group r rd v0 h0 hv0] at hrt
+    cases hrt with
+    | whole _ hp => exact absurd hp h0
+    | group _ =>
+      have hg : (groupBase r rd).subW ≠ 0 := h0
+      simp only [Regs.Reg.isGroup, bne_iff_ne, ne_eq, hg, not_false_eq_true, if_true]
+      exact assemble_G r rd v h0 (gf.width h0) hv
+    | fields x _ hp _ _ => exact absurd hp h0
+
+/-- **Configuration round trip, index level, grouped registers included.**  For a well-formed layout whose registers are plain
+    registers or database-like groups (byte-reversed or not, with or without alternative widths): the configuration taken from state
+    `vals` loads into an object in state `init` and afterwards EVERY register - groups through their sub-registers - holds its raw
+    value of `vals`.  `hrest` is only asked for plain registers WITH bit-fields. -/
+theorem area_config_roundtrip_groups_idx (l : Layout) (d : LayoutD) (vals init : Vals)
+    (ha : Aligned3 l.regs d.regs vals) (hai : Aligned3 l.regs d.regs init)
+    (wf : ∀ r ∈ l.regs, RegWF r) (hs : StateOK l vals) (hs0 : StateOK l init)
+    (hg : ∀ (i : Nat) (r : RegL) (rd : RegD), l.regs[i]? = some r → d.regs[i]? = some rd → GroupFacts r rd)
+    (hz : ∀ (i : Nat) (rd : RegD) (v0 : Nat), d.regs[i]? = some rd → init[i]? = some v0 → rd.subW ≠ 0 → rd.alts ≠ [] → v0 = 0)
+    (hst : ∀ (i : Nat) (r : RegL) (rd : RegD) (v : Nat), l.regs[i]? = some r → d.regs[i]? = some rd → vals[i]? = some v →
+      rd.subW ≠ 0 → AltStable r rd v)
+    (hrest : ∀ (i : Nat) (r : RegL) (rd : RegD) (v v0 : Nat), l.regs[i]? = some r → d.regs[i]? = some rd → vals[i]? = some v →
+      init[i]? = some v0 → rd.subW = 0 → r.fields ≠ [] →
+      ∀ k, ¬ Regs.Carried (toRegMeta rd) (toReg r rd v) k → v0.testBit k = v.testBit k) :
+    ∃ cfg rf', Regs.getConfig (toMeta d) (toFileG l d vals) = .ok cfg ∧
+      Regs.loadConfig (toMeta d) (toFileG l d init) cfg = .ok rf' ∧ valuesOfG rf' = vals := by
+  have hmeta : ∀ i rd, d.regs[i]? = some rd → (toMeta d).reg i = toRegMeta rd := by
+    intro i rd h
+    simp [Regs.Meta.reg, toMeta, List.getD_eq_getElem?_getD, List.getElem?_map, h]
+  have hlen : (toFileG l d init).length = (toFileG l d vals).length := by
+    simp only [toFileG]; rw [toFileFromG_length hai, toFileFromG_length ha]
+  obtain ⟨cfg, rf', h1, h2, h3, h4⟩ := C11.config_roundtrip (toMeta d) (toFileG l d vals) (toFileG l d init) hlen (by
+    intro i x x0 hx hx0
+    obtain ⟨r, rd, v, hr, hrd, hv, rfl⟩ := pick3G ha hx
+    obtain ⟨r', rd', v0, hr', hrd', hv0, rfl⟩ := pick3G hai hx0
+    rw [hr] at hr'; cases hr'
+    rw [hrd] at hrd'; cases hrd'
+    rw [hmeta i rd hrd]
+    exact regOK_G r rd v v0 (wf r (List.mem_of_getElem? hr)) (stateOK_get hs hr hv) (stateOK_get hs0 hr hv0) (hg i r rd hr hrd)
+      (hz i rd v0 hrd hv0) (hst i r rd v hr hrd hv))
+  refine ⟨cfg, rf', h1, h2, ?_⟩
+  have hl : (toFileG l d vals).length = l.regs.length := toFileFromG_length ha
+  apply List.ext_getElem?
+  intro i
+  simp only [valuesOfG, List.getElem?_map]
+  cases hvi : vals[i]? with
+  | none =>
+    have : rf'.length ≤ i := by
+      rw [h3, hl, ← (aligned3_lengths ha).2]; exact List.getElem?_eq_none_iff.1 hvi
+    simp [List.getElem?_eq_none this]
+  | some v =>
+    have hi : i < l.regs.length := by rw [← (aligned3_lengths ha).2]; exact (List.getElem?_eq_some_iff.1 hvi).1
+    obtain ⟨r, hr⟩ : ∃ r, l.regs[i]? = some r := ⟨_, List.getElem?_eq_getElem hi⟩
+    obtain ⟨rd, hrd⟩ : ∃ rd, d.regs[i]? = some rd := ⟨_, List.getElem?_eq_getElem (by rw [(aligned3_lengths ha).1]; exact hi)⟩
+    obtain ⟨v0, hv0⟩ : ∃ v0, init[i]? = some v0 := ⟨_, List.getElem?_eq_getElem (by rw [(aligned3_lengths hai).2]; exact hi)⟩
+    have hx : (toFileG l d vals)[i]? = some (toRegG r rd v) := by
+      simp only [toFileG]; rw [toFileFromG_getElem? i ha, hr, hrd, hvi]
+    have hx0 : (toFileG l d init)[i]? = some (toRegG r rd v0) := by
+      simp only [toFileG]; rw [toFileFromG_getElem? i hai, hr, hrd, hv0]
+    obtain ⟨r', hr', hrt⟩ := h4 i _ _ hx hx0
+    rw [hmeta i rd hrd] at hrt
+    have := value_G r rd v v0 r' (stateOK_get hs hr hvi) (stateOK_get hs0 hr hv0) (hg i r rd hr hrd) hrt
+      (hrest i r rd v v0 hr hrd hvi hv0)
+    simp [hr', this]
+
+theorem toRegG_fields_length (r : RegL) (rd : RegD) (v : Nat) (hfl : r.fields.length = rd.fields.length)
+    (gf : GroupFacts r rd) (hv : v < 2 ^ r.width) : (toRegG r rd v).fields.length = rd.fields.length := by
+  by_cases h0 : rd.subW = 0
+  · rw [toRegG_plain r rd v h0]; simp [toReg, hfl]
+  · rw [toRegG_group r rd v h0 hv]
+    have := gf.nofields h0
+    rw [this] at hfl
+    simp [groupBase, ← hfl]
+
+/-- **Configuration round trip** (`load_from_config(get_config(x))`) for every well-formed layout, byte-reversed and alternative-width
+    groups (ROTKH, RKTH, reversed fuse groups) INCLUDED, whose group structure is database-like (`groupsB`), whose reset values are
+    what the fresh registers read (`resetsB`) and whose names resolve: the name-keyed dictionary `get_config` hands out resolves to
+    the registers it came from, loads into a FRESH object, restores every raw register value, and the fresh object exports the same
+    binary.  What is asked of the state: (`hunc`) on the bits of a register with bit-fields that NO bit-field covers it agrees with
+    the fresh object (such bits cannot be expressed in a configuration), and (`hst`) a byte-reversed alternative-width group is
+    unambiguous (`AltStable`, vacuous for values that fit the alternative width: `altStable_of_fits`). -/
+theorem area_config_roundtrip_groups (l : Layout) (d : LayoutD) (vals : Vals)
+    (ha : alignedB l d = true) (hlen : vals.length = l.regs.length) (wf : LayoutWF l)
+    (hgr : groupsB l d = true) (hres : resetsB l d = true)
+    (hf : findRegB d = true) (hn : fieldNamesB d = true) (hs : StateOK l vals)
+    (hst : ∀ (i : Nat) (r : RegL) (rd : RegD) (v : Nat), l.regs[i]? = some r → d.regs[i]? = some rd → vals[i]? = some v →
+      rd.subW ≠ 0 → AltStable r rd v)
+    (hunc : ∀ (i : Nat) (r : RegL) (rd : RegD) (v : Nat), l.regs[i]? = some r → d.regs[i]? = some rd → vals[i]? = some v →
+      rd.subW = 0 → r.fields ≠ [] → ∀ k, k < r.width → ¬ Covered r k → rd.init.testBit k = v.testBit k) :
+    ∃ cfg n rf', Regs.getConfig (toMeta d) (toFileG l d vals) = .ok cfg ∧
+      nameCfg d cfg = some n ∧ resolveCfg d n = some cfg ∧
+      Regs.loadConfig (toMeta d) (toFileG l d d.initVals) cfg = .ok rf' ∧ valuesOfG rf' = vals ∧
+      exportArea l (valuesOfG rf') = exportArea l vals := by
+  simp only [alignedB, Bool.and_eq_true] at ha
+  simp only [groupsB, Bool.and_eq_true] at hgr
+  have h3 : Aligned3 l.regs d.regs vals := aligned3_of_alignedB ha.1 hlen
+  have hdl : d.regs.length = l.regs.length := (aligned3_lengths h3).1
+  have h30 : Aligned3 l.regs d.regs d.initVals := aligned3_of_alignedB ha.1 (by simp [LayoutD.initVals, hdl])
+  have hs0 : StateOK l d.initVals := stateOK_init_of_resetsB l d hres
+  have hgf : ∀ (i : Nat) (r : RegL) (rd : RegD), l.regs[i]? = some r → d.regs[i]? = some rd → GroupFacts r rd :=
+    fun i r rd hr hrd => groupOkB_sound r rd (zipAll_get hgr.1 i r rd hr hrd)
+  have hinit : ∀ (i : Nat) (rd : RegD) (v0 : Nat), d.regs[i]? = some rd → d.initVals[i]? = some v0 → v0 = rd.init := by
+    intro i rd v0 hrd hv0
+    simp only [LayoutD.initVals, List.getElem?_map, hrd, Option.map_some, Option.some.injEq] at hv0
+    exact hv0.symm
+  obtain ⟨cfg, rf', h1, h2, h4⟩ := area_config_roundtrip_groups_idx l d vals d.initVals h3 h30 wf.regs hs hs0 hgf (by
+    intro i rd v0 hrd hv0 hne hal
+    rw [hinit i rd v0 hrd hv0]
+    have hi : i < l.regs.length := by rw [← hdl]; exact (List.getElem?_eq_some_iff.1 hrd).1
+    rcases (hgf i _ rd (List.getElem?_eq_getElem hi) hrd).fresh hne with h | h
+    · exact absurd h hal
+    · exact h) hst (by
+    intro i r rd v v0 hr hrd hv hv0 h0 hfne k hk
+    rw [hinit i rd v0 hrd hv0]
+    by_cases hc : Covered r k
+    · exact not_carried_covered r rd v k (rv3_fields h3 hr hrd) (fieldResets_of_resetsB l d hres i r rd hr hrd) hc hk
+    · by_cases hkw : k < r.width
+      · exact hunc i r rd v hr hrd hv h0 hfne k hkw hc
+      · have e0 : rd.init < 2 ^ r.width := by
+          have := stateOK_get hs0 hr (by simp [LayoutD.initVals, hrd] : d.initVals[i]? = some rd.init)
+          exact this
+        rw [Regs.testBit_eq_false_of_lt e0 (by omega), Regs.testBit_eq_false_of_lt (stateOK_get hs hr hv) (by omega)])
+  obtain ⟨n, hn1, hn2⟩ := names_resolve d (toFileG l d vals) cfg hf hn (by simp only [toFileG]; rw [toFileFromG_length h3, hdl]) (by
+    intro i x rd hx hrd
+    obtain ⟨r, rd', v, hr, hrd', hv, rfl⟩ := pick3G h3 hx
+    rw [hrd] at hrd'; cases hrd'
+    exact toRegG_fields_length r rd v (rv3_fields h3 hr hrd) (hgf i r rd hr hrd) (stateOK_get hs hr hv)) h1
+  exact ⟨cfg, n, rf', h1, hn1, hn2, h2, h4, by rw [h4]⟩
+
+#print axioms area_config_roundtrip_groups
+/-! ### … and the database: the group structure of every generated layout is database-like -/
+
+/-- every register of every generated layout is a plain, non-reversed register without alternative widths, or a group without
+    bit-fields of its own, exactly as wide as its sub-registers, whose alternative widths are byte and sub-register multiples not wider
+    than the group, with normal sub-register order when there are alternative widths and a zero initial value in that case; and no
+    register name is the name or uid of a sub-register.  Full-strength statement (false on the pinned tree): `groupsB` for every
+    layout; refuted by mcxn946 pfr_cmpa_a0 / pfr_cfpa_a0 (group wider than its sub-registers, known finding
+    C12-group-wider-than-subregs, already in `knownIllFormed`). -/
+theorem gen_groups_ok_partial :
+    layoutsD.all (fun ld => knownIllFormed.contains ld.1.name || groupsB ld.1 ld.2) = true := by decide +kernel
+
+/-- **every generated layout** outside the named data defects - the 21 layouts with byte-reversed groups (ROTKH, RKTH, SRKH,
+    OTFAD keys, …) and the alternative-width groups included - has the configuration round trip; the hypotheses left are about the
+    STATE only: unambiguous reversed alternative-width values (`hst`) and agreement with the fresh object on bits no bit-field covers
+    (`hunc`); everything about the layout is a kernel-checked fact of the generated tables -/
+theorem gen_config_roundtrip_groups (l : Layout) (d : LayoutD) (hld : (l, d) ∈ layoutsD)
+    (hk1 : knownIllFormed.contains l.name = false) (hk2 : knownDuplicateRegNames.contains l.name = false)
+    (hk3 : knownDuplicateFieldNames.contains l.name = false)
+    (vals : Vals) (hlen : vals.length = l.regs.length) (hs : StateOK l vals)
+    (hst : ∀ (i : Nat) (r : RegL) (rd : RegD) (v : Nat), l.regs[i]? = some r → d.regs[i]? = some rd → vals[i]? = some v →
+      rd.subW ≠ 0 → AltStable r rd v)
+    (hunc : ∀ (i : Nat) (r : RegL) (rd : RegD) (v : Nat), l.regs[i]? = some r → d.regs[i]? = some rd → vals[i]? = some v →
+      rd.subW = 0 → r.fields ≠ [] → ∀ k, k < r.width → ¬ Covered r k → rd.init.testBit k = v.testBit k) :
+    ∃ cfg n rf', Regs.getConfig (toMeta d) (toFileG l d vals) = .ok cfg ∧
+      nameCfg d cfg = some n ∧ resolveCfg d n = some cfg ∧
+      Regs.loadConfig (toMeta d) (toFileG l d d.initVals) cfg = .ok rf' ∧ valuesOfG rf' = vals ∧
+      exportArea l (valuesOfG rf') = exportArea l vals := by
+  have hl : l ∈ Generated.RegLayouts.layouts := (List.of_mem_zip hld).1
+  have wf := gen_layouts_wellformed l hl hk1
+  have hall : ∀ {p : Layout × LayoutD → Bool}, layoutsD.all p = true → p (l, d) = true := by
+    intro p hp; rw [List.all_eq_true] at hp; exact hp (l, d) hld
+  have ha := hall gen_details_aligned
+  have hr := hall gen_resets_fit
+  have hn := hall gen_reg_names_unique_partial
+  have hfn := hall gen_field_names_unique_partial
+  have hgr := hall gen_groups_ok_partial
+  simp only [hk2, Bool.false_or, Bool.and_eq_true] at hn
+  simp only [hk3, Bool.false_or] at hfn
+  simp only [hk1, Bool.false_or] at hgr
+  exact area_config_roundtrip_groups l d vals ha hlen wf hgr hr hn.2 hfn hs hst hunc
+
 /-! ## alternative-width, byte-reversed registers (ROTKH of the CMPA, RKTH fuse group) -/
 
 section Rotkh
@@ -878,5 +1107,74 @@ example : Generated.RegLayouts.layouts.any (fun l => l.binary && !l.computed.isE
   decide +kernel
 example : tzExport [1, 0xFFFFFFFF] = .ok [1, 0, 0, 0, 0xFF, 0xFF, 0xFF, 0xFF] := by decide
 example : RuleHolds 0 0xEDCB1234 ∧ RuleHolds 1 0x0000A55A := by decide
+
+/-! ### non-vacuity of the grouped-register configuration round trip -/
+
+/-- a 16-bit register with three 4-bit bit-fields (the middle one hidden; bits 12..15 covered by no bit-field) and a byte-reversed
+    group of two 16-bit sub-registers with the alternative width 16 -/
+def exLayoutG : Layout := Layout.ofRaw "exampleG" 0 8 0 0 true [] 0 0 [[0, 16, 0, 16, 0, 4, 4, 4, 8, 4], [4, 32, 0, 32]]
+def exDetailsG : LayoutD := LayoutD.ofRaw 99 [] []
+  [([0x0120, 1, 2, 4], [[0, 4, 0, 10], [2, 5, 0, 11], [1, 4, 0, 12]]), ([0, 3, 4, 5, 16, 2, 0, 1, 16, 6, 7, 8, 9], [])]
+
+example : layoutWFb exLayoutG = true ∧ alignedB exLayoutG exDetailsG = true ∧ groupsB exLayoutG exDetailsG = true ∧
+    resetsB exLayoutG exDetailsG = true ∧ findRegB exDetailsG = true ∧ fieldNamesB exDetailsG = true := by decide
+
+def exR0 : RegL := ⟨0, 16, false, 16, [⟨0, 4⟩, ⟨4, 4⟩, ⟨8, 4⟩]⟩
+def exR1 : RegL := ⟨4, 32, false, 32, []⟩
+theorem exLayoutG_regs : exLayoutG.regs = [exR0, exR1] := by decide
+theorem exDetailsG_subW : exDetailsG.regs.map (·.subW) = [0, 16] ∧ exDetailsG.regs.map (·.alts) = [[], [16]] ∧
+    exDetailsG.regs.map (·.init) = [0x0120, 0] := by decide
+
+/-- the state: the hidden bit-field at its reset value 2, the uncovered bits 12..15 as in the fresh object, the group holding the
+    byte-reversed 16-bit value 0xABCD (raw 0xCDAB: fits the alternative width) -/
+def exValsG : Vals := [0x0325, 0xCDAB]
+
+example : StateOK exLayoutG exValsG := .cons (by decide) (.cons (by decide) .nil)
+
+/-- what the model computes for it: the group is written out through its byte-reversed 16-bit view and comes back -/
+example : (Regs.getConfig (toMeta exDetailsG) (toFileG exLayoutG exDetailsG exValsG)).toOption.map (·.map (·.2)) =
+    some [.fields [(0, .num 5), (2, .num 3)], .value 0xABCD] := by decide
+example : (Regs.getConfig (toMeta exDetailsG) (toFileG exLayoutG exDetailsG exValsG)).toOption.bind (fun cfg =>
+    (Regs.loadConfig (toMeta exDetailsG) (toFileG exLayoutG exDetailsG exDetailsG.initVals) cfg).toOption.map valuesOfG) =
+    some exValsG := by decide
+
+/-- … and the hypotheses of `area_config_roundtrip_groups` hold for it (non-vacuity, all of them at once) -/
+example : ∃ cfg n rf', Regs.getConfig (toMeta exDetailsG) (toFileG exLayoutG exDetailsG exValsG) = .ok cfg ∧
+      nameCfg exDetailsG cfg = some n ∧ resolveCfg exDetailsG n = some cfg ∧
+      Regs.loadConfig (toMeta exDetailsG) (toFileG exLayoutG exDetailsG exDetailsG.initVals) cfg = .ok rf' ∧ valuesOfG rf' = exValsG ∧
+      exportArea exLayoutG (valuesOfG rf') = exportArea exLayoutG exValsG := by
+  refine area_config_roundtrip_groups exLayoutG exDetailsG exValsG (by decide) rfl (layoutWFb_sound _ (by decide)) (by decide)
+    (by decide) (by decide) (by decide) (.cons (by decide) (.cons (by decide) .nil)) ?_ ?_
+  · intro i r rd v hr hrd hv hne
+    apply altStable_of_fits
+    have ha : (exDetailsG.regs.map (·.alts))[i]? = some rd.alts := by simp [hrd]
+    rw [exDetailsG_subW.2.1] at ha
+    match i, hv, ha with
+    | 0, _, ha => simp at ha; intro a h; rw [ha] at h; cases h
+    | 1, hv, ha =>
+      simp [exValsG] at hv ha; subst hv
+      intro a h; rw [← ha] at h; simp at h; subst h; decide
+    | i + 2, hv, _ => simp [exValsG] at hv
+  · intro i r rd v hr hrd hv h0 _ k hk hnc
+    have hs : (exDetailsG.regs.map (·.subW))[i]? = some rd.subW := by simp [hrd]
+    have hi : (exDetailsG.regs.map (·.init))[i]? = some rd.init := by simp [hrd]
+    rw [exDetailsG_subW.1] at hs
+    rw [exDetailsG_subW.2.2] at hi
+    rw [exLayoutG_regs] at hr
+    match i, hr, hv, hs, hi with
+    | 0, hr, hv, _, hi =>
+      simp at hr hi; simp [exValsG] at hv; subst hr; subst hv; rw [← hi]
+      have hk' : k < 16 := hk
+      by_cases h12 : k < 12
+      · exfalso; apply hnc
+        by_cases h4 : k < 4
+        · exact ⟨⟨0, 4⟩, by simp [exR0], by simp, by simpa using h4⟩
+        · by_cases h8 : k < 8
+          · exact ⟨⟨4, 4⟩, by simp [exR0], by simp; omega, by simp; omega⟩
+          · exact ⟨⟨8, 4⟩, by simp [exR0], by simp; omega, by simp; omega⟩
+      · have : k = 12 ∨ k = 13 ∨ k = 14 ∨ k = 15 := by omega
+        rcases this with rfl | rfl | rfl | rfl <;> decide
+    | 1, _, _, hs, _ => simp at hs; omega
+    | i + 2, hr, _, _, _ => simp at hr
 
 end SpsdkVerif.C12
